@@ -268,6 +268,9 @@ def fixed_cases() -> list:
         {'messages': [[0, OPEN, open_rfc], [2, OPEN, open_cisco], [0, NOTIFICATION, '0602']], 'motifs': ['fixed:route-refresh-codes']},
         {'messages': [[0, UPDATE, aigp], [2, UPDATE, aigp]], 'motifs': ['fixed:aigp-accepted-then-not']},
         {'messages': [[2, UPDATE, aigp], [0, UPDATE, aigp]], 'motifs': ['fixed:aigp-refused-then-accepted']},
+        # a cacheable block, then the same malformed block (COMMUNITIES of three octets: treat-as-withdraw) twice, and a refused one twice
+        {'messages': [[0, UPDATE, plain], [0, UPDATE, build.update_body(b'', block + build.attribute(0xC0, 8, b'\x00\x01\x02'), bytes([24, 10, 0, 3])).hex()], [0, UPDATE, build.update_body(b'', block + build.attribute(0xC0, 8, b'\x00\x01\x02'), bytes([24, 10, 0, 3])).hex()]], 'motifs': ['fixed:good-then-malformed-twice']},
+        {'messages': [[0, UPDATE, plain], [0, UPDATE, build.update_body(b'', block + build.attribute(0x40, 1, b'\x00'), bytes([24, 10, 0, 3])).hex()], [0, UPDATE, build.update_body(b'', block + build.attribute(0x40, 1, b'\x00'), bytes([24, 10, 0, 3])).hex()]], 'motifs': ['fixed:good-then-refused-twice']},
         # one FlowSpec rule (protocol / next-header =tcp, dscp / traffic-class =46) announced for IPv4 then IPv6 on the flow session, and back
         {'messages': [[3, UPDATE, _flow(1)], [3, UPDATE, _flow(2)], [3, UPDATE, _flow(1)]], 'motifs': ['fixed:flow-v4-v6-v4']},
         {'messages': [[3, UPDATE, _flow(2)], [3, UPDATE, _flow(1)]], 'motifs': ['fixed:flow-v6-v4']},
